@@ -3,6 +3,7 @@ package props
 import (
 	"fmt"
 	"math/rand"
+	"reflect"
 	"strconv"
 	"strings"
 	"time"
@@ -536,6 +537,7 @@ func runC20(c *run.Ctx) {
 	// the same group twice in one tree, in positions with different
 	// parenthesisation needs
 	repeatedGroups(c)
+	pointerHosts(c)
 	// every operand string and number in every position of a small tree
 	n := 0
 	for _, s := range c20Strs {
@@ -623,6 +625,108 @@ func graft(r *rand.Rand, t *critNode) {
 	dst.kids[r.Intn(len(dst.kids))] = cloneCrit(src)
 }
 
+// pointerHosts: the compiled criteria rendered several times with the same
+// pointer to a host struct whose fields are rewritten in between: every
+// rendering shows the values of that moment.
+func pointerHosts(c *run.Ctx) {
+	var names []string
+	for n := range c20Fields {
+		names = append(names, n)
+	}
+	sortStrings(names)
+	goT := map[string]reflect.Type{"num": reflect.TypeOf(float64(0)), "str": reflect.TypeOf(""), "bool": reflect.TypeOf(true), "time": reflect.TypeOf(time.Time{})}
+	var sf []reflect.StructField
+	for i, n := range names {
+		sf = append(sf, reflect.StructField{Name: fmt.Sprintf("F%d", i), Type: goT[c20Fields[n]], Tag: reflect.StructTag(fmt.Sprintf(`yae:"%s"`, n))})
+	}
+	st := reflect.StructOf(sf)
+	for i := 0; i < c.Pick(300, 30000); i++ {
+		if !c.Mine(i) {
+			continue
+		}
+		c.Case(fmt.Sprintf("pointer-host/%d", i), func() {
+			r := c.Rng("ptrhost", i)
+			tree := shape(r, 2+r.Intn(2), r.Intn(1<<30)%countShapes(3))
+			c.Input(tree.flat(nil))
+			c.Count("criteria_compiled", 1)
+			tenv := types.NewEnv()
+			for n, t := range c20Fields {
+				tenv.Put(n, typeOfName(t))
+			}
+			var f func(v interface{}) (string, error)
+			if perr := func() (p string) {
+				defer func() {
+					if r := recover(); r != nil {
+						p = fmt.Sprint(r)
+					}
+				}()
+				f = ext.CompileToSql(tree.criteria(), tenv)
+				return ""
+			}(); perr != "" {
+				c.Violation("sql-fault", fmt.Sprintf("compiling the criteria %s panics: %s", tree.flat(nil), perr), nil)
+				return
+			}
+			host := reflect.New(st) // one pointer for all renderings
+			for round := 0; round < 4; round++ {
+				bound := map[string]critOperand{}
+				for fi, n := range names {
+					o := genOperand(r, c20Fields[n])
+					for o.kind == "name" {
+						o = genOperand(r, c20Fields[n])
+					}
+					bound[n] = o
+					fv := host.Elem().Field(fi)
+					switch o.kind {
+					case "num":
+						fv.SetFloat(o.num)
+					case "str":
+						fv.SetString(o.str)
+					case "bool":
+						fv.SetBool(o.b)
+					case "time":
+						fv.Set(reflect.ValueOf(time.Unix(o.ts, 0)))
+					}
+				}
+				var arg interface{} = host.Interface()
+				if round == 3 {
+					arg = host.Elem().Interface() // and once by value
+				}
+				c20RenderHost(c, tree, f, bound, arg, round)
+			}
+		})
+	}
+}
+
+func c20RenderHost(c *run.Ctx, tree *critNode, f func(v interface{}) (string, error), bound map[string]critOperand, host interface{}, ri int) {
+	want := tree.flat(bound)
+	var sql string
+	var err error
+	if perr := func() (p string) {
+		defer func() {
+			if r := recover(); r != nil {
+				p = fmt.Sprint(r)
+			}
+		}()
+		sql, err = f(host)
+		return ""
+	}(); perr != "" || err != nil {
+		c.Violation("sql-fault", fmt.Sprintf("rendering the criteria %s over a host struct (call %d) fails: %s %v", tree.flat(nil), ri, perr, err), nil)
+		return
+	}
+	c.Count("sql_texts_read_back", 1)
+	back, perr := ref.SQLParse(sql)
+	if perr != nil {
+		c.Violation("sql-unreadable", fmt.Sprintf("the WHERE text %q (criteria %s) does not read back: %v", sql, want, perr), nil)
+		return
+	}
+	k := 0
+	got := readerFlat(back, nil, &k)
+	if !matchFlat(want, got) {
+		c.Violation("sql-structure", fmt.Sprintf("the WHERE text %q (call %d with the same pointer to a host struct rewritten in between) reads as %s; with the values of this call the criteria are %s", sql, ri, got, want), nil)
+	}
+	c.Distinct(want)
+}
+
 func repeatedGroups(c *run.Ctx) {
 	leaf := func(f string, v float64) *critNode {
 		return &critNode{op: "cond", field: f, rel: "=", ops: []critOperand{{kind: "num", num: v}}}
@@ -688,7 +792,7 @@ func min2(a, b int) int {
 func init() {
 	run.Register(&run.Spec{
 		ID: "C20", Run: runC20, Level: "exploration",
-		Rule: "every AND / OR / NOT tree shape to depth 3 (2 776 shapes, exhaustive: true for shapes; leaves random over =,<>,<,<=,>,>=,IN,BETWEEN,LIKE,IS NULL on num/str/bool/time columns), sampled depth 4-5, and every adversarial operand string (quotes, doubled quotes, backslashes, trailing backslash, injection attempts, %, _, NUL, ^Z, control, invalid UTF-8, CJK, zero-width) and boundary number (fractions, > 2^53, > 2^63, 1e19, 1e20) in every literal / bound-parameter position; the same group (OR, AND, NOT, nested) twice in one tree under every pair of 6 contexts (bare, left/right of AND, of OR, under NOT, under NOT-AND; shared node object or equal copy) and random grafts of one subtree over another; every adversarial string also as the run-time value of the column of IS NULL / = / LIKE / IN; names bound or unbound in the run-time environment at random, each compiled criteria rendered 2-3 times with different bindings (unbound, bound, other values); string literals also in back-quoted source form; " +
+		Rule: "every AND / OR / NOT tree shape to depth 3 (2 776 shapes, exhaustive: true for shapes; leaves random over =,<>,<,<=,>,>=,IN,BETWEEN,LIKE,IS NULL on num/str/bool/time columns), sampled depth 4-5, and every adversarial operand string (quotes, doubled quotes, backslashes, trailing backslash, injection attempts, %, _, NUL, ^Z, control, invalid UTF-8, CJK, zero-width) and boundary number (fractions, > 2^53, > 2^63, 1e19, 1e20) in every literal / bound-parameter position; the same group (OR, AND, NOT, nested) twice in one tree under every pair of 6 contexts (bare, left/right of AND, of OR, under NOT, under NOT-AND; shared node object or equal copy) and random grafts of one subtree over another; every adversarial string also as the run-time value of the column of IS NULL / = / LIKE / IN; one pointer to a host struct passed to the compiled criteria four times with all fields rewritten in between; names bound or unbound in the run-time environment at random, each compiled criteria rendered 2-3 times with different bindings (unbound, bound, other values); string literals also in back-quoted source form; " +
 			"monitor = independent reader of the emitted dialect (backtick identifiers, double-quoted strings with backslash escapes, from_unixtime(n)); standard precedence comparison > NOT > AND > OR; AND/OR chains flattened; structure and operands compared with the criteria tree: each string operand must read back as exactly one literal (content compared whenever it is printable), numbers by value, booleans as 1/0, times by unix seconds, unbound names as columns, bound names as their values. distinct = distinct flattened criteria",
 		Assume:    []string{"non-finite numbers have no SQL form and are not generated", "string contents containing non-printable characters are checked for containment only (Go-style escapes such as \\x00 do not round-trip in MySQL but cannot leave the literal)"},
 		MinEvents: 3000, EventKey: "criteria_compiled",
